@@ -146,6 +146,14 @@ def project(code, with_raw=False):
 PAULI_ID = {'X': 1, 'Y': 2, 'Z': 3}
 
 
+def coord(x):
+    """One coordinate, exactly, as text (TLC compares tuples of one type):
+    '3', '-1', or the exact rational '3/2' (user lattices may use half-integers)."""
+    from fractions import Fraction
+    f = Fraction(float(x)) if not isinstance(x, (int, np.integer)) else Fraction(int(x))
+    return str(int(f)) if f.denominator == 1 else f'{f.numerator}/{f.denominator}'
+
+
 def project_raw(code):
     """The primitive (lattice-definition) view: coordinates and the dict
     operators returned by get_stabilizer / get_logicals, with sites given as
@@ -165,8 +173,8 @@ def project_raw(code):
         return sites
 
     return {
-        'qcoords': [list(map(int, q)) for q in qc],
-        'scoords': [list(map(int, s)) for s in sc],
+        'qcoords': [[coord(x) for x in q] for q in qc],
+        'scoords': [[coord(x) for x in s] for s in sc],
         'raw_stabs': [conv(code.get_stabilizer(loc)) for loc in sc],
         'raw_lx': [conv(op) for op in code.get_logicals_x()],
         'raw_lz': [conv(op) for op in code.get_logicals_z()],
